@@ -47,6 +47,10 @@ SubCopy(cur) == [cur EXCEPT !["LS"] = Absent]
 SetName(S, name, node) ==
     [S EXCEPT !.cur[name] = Entry(<<node>>), !.all[name] = @ \cup {node}]
 
+\* a name that is not a local at the place of use is looked up in the module scope, where the leak is found
+FromModule(S, v, useid) ==
+    IF ~S.usage[useid].present /\ S.mod[v] # {} THEN [S EXCEPT !.usage[useid] = Entry(SetToSortedSeq(S.mod[v]))] ELSE S
+
 \* ---- FunctionScope.get_local in the collecting phase (stacked_scopes.py:1121)
 \* a use inside a nested function g: Scope.get (stacked_scopes.py:715) looks the name up in the enclosing
 \* FunctionScope with the key (varname, g's node) each time g's body is visited in g's collecting state, i.e. once
@@ -54,14 +58,15 @@ SetName(S, name, node) ==
 UseNested(S, v, useid) ==
     IF S.cur[v].present
     THEN [S EXCEPT !.usage[useid] = Entry((IF @.present THEN @.nodes ELSE << >>) \o S.cur[v].nodes)]
-    ELSE S
+    ELSE IF S.phase = "check" THEN FromModule(S, v, useid) ELSE S
 \* `nonlocal v; v = <id>` inside a nested function: visit_Nonlocal (name_check_visitor.py:2583) finds the defining
 \* scope with `varname in scope` (name_to_all_definition_nodes) and FunctionScope.set (stacked_scopes.py:1104)
 \* forwards the assignment to it -- at the place where g is DEFINED
-SetNonlocal(S, v, node) == IF S.all[v] # {} THEN SetName(S, v, node) ELSE S
-
+\* ... and when the enclosing function has not assigned v yet (collecting phase), get_nonlocal_scope finds nothing
+\* and visit_Nonlocal silently falls back to the module scope: the value leaks into a module-level variable `v`
+SetNonlocal(S, v, node) == IF S.all[v] # {} THEN SetName(S, v, node) ELSE [S EXCEPT !.mod[v] = @ \cup {node}]
 UseName(S, v, useid) ==
-    IF S.phase = "check" THEN S          \* the checking phase only reads usage_to_definition_nodes
+    IF S.phase = "check" THEN FromModule(S, v, useid)     \* the checking phase only reads usage_to_definition_nodes
     ELSE IF S.cur[v].present
     THEN [S EXCEPT !.usage[useid] = Entry((IF @.present THEN @.nodes ELSE << >>) \o S.cur[v].nodes)]
     ELSE S            \* not a local at this point: falls through to the enclosing scopes
@@ -200,7 +205,7 @@ Visit(block, S) == IF block = << >> THEN S ELSE Visit(Tail(block), VisitStmt(Hea
 \* ---- a whole function body ------------------------------------------------------
 MaxId == 12
 S0 == [cur |-> EmptyScope, usage |-> [u \in 1..MaxId |-> Absent], all |-> [n \in Names |-> {}], loops |-> << << >> >>,
-       phase |-> "collect"]
+       phase |-> "collect", mod |-> [v \in Vars |-> {}]]
 
 RECURSIVE HasKind(_, _)
 HasKind(block, kinds) ==
